@@ -67,10 +67,12 @@ def o_skip(name, inst, res, v):
 def boundary_fate(name, d, fate, witness):
     key = (name,)
     seen = BOUNDARY_FATE.setdefault(key, {})
-    seen.setdefault(fate, witness)
+    seen.setdefault(fate, (witness, tt.CURRENT_CASE[0]))
     if len(seen) == 2:
+        other = "dropped" if fate == "emitted" else "emitted"
         return (f"{name}: an element aged exactly the duration at completion is emitted in one run and dropped in "
-                f"another: emitted in {seen['emitted']}, dropped in {seen['dropped']}")
+                f"another: emitted in {seen['emitted'][0]}, dropped in {seen['dropped'][0]}",
+                [seen[other][1]])
     return None
 
 
@@ -270,8 +272,9 @@ def oracle(name, inst, res):
 
 def run(chk):
     BOUNDARY_FATE.clear()
-    chk.build_and_prove()
-    tt.run_timed(chk, "C17", NAMES, oracle)
+    ok = chk.build_and_prove()
+    # a broken proof / theorem file: enlarge the search for a failing input to the thorough scope
+    tt.run_timed(chk, "C17", NAMES, oracle, ncase=None if ok else 2000)
     chk.cov["boundary_fates_observed"] = {k[0]: sorted(s) for k, s in BOUNDARY_FATE.items()}
     chk.cov["rule"] = ("per operator: seeded instances (durations / due times 0/5/10/20 ms as float seconds, timedelta "
                        "or absolute datetime incl. one in the past; timeout with and without fallback; scheduler "
@@ -295,5 +298,4 @@ def run(chk):
 
 
 def replay(chk, path):
-    print(open(path).read())
-    return 1
+    return tt.replay_cases("C17", oracle, path, reset=BOUNDARY_FATE.clear)
